@@ -11,7 +11,7 @@ PID = 'C12'
 LEVEL = 'exploration'
 BINARY = ['gp', 'sw', 'cp', 'acp', 'ip', 'sp', 'lc', 'rc', 'op', 'rp', 'proj', 'add', 'sub', 'div']
 UNARY = ['inv', 'neg', 'reverse', 'involute', 'conjugate', 'sqrt', 'polarity', 'unpolarity', 'hodge', 'unhodge', 'normsq',
-         'outerexp', 'outersin', 'outercos', 'outertan']
+         'outerexp', 'outersin', 'outercos', 'outertan', 'norm', 'normalized']
 RULE = ('cases = (configuration, operator, key tuple(s), partition of the stored coefficients into symbolic / numeric, rational assignment); '
         'the symbolic result is evaluated (a) by keyword call, (b) by positional call in symbol-name order, (c) by sympy substitution of every '
         'coefficient, and all three must equal the operator applied to fully numeric operands. Symbol names are chosen so that name order differs '
@@ -32,6 +32,9 @@ ASSIGN = [[Fraction(3, 2), Fraction(-2, 3), Fraction(5, 4), Fraction(7, 3), Frac
 NAMES = ['u2', 'u10', 'u1', 'u11', 'u3', 'u20', 'u12', 'u4', 'u30', 'u13', 'u5', 'u40', 'u14', 'u6', 'u50', 'u15']
 
 
+MAIN = spaces.cfg_pqr(2, 0, 0)
+
+
 def shards(tier, seed):
     sh = []
 
@@ -40,6 +43,7 @@ def shards(tier, seed):
     main = spaces.cfg_pqr(2, 0, 0)
     right4 = ('list', [[1], [0, 3], [2, 1], [0, 1, 2, 3]])
     sh += mk('Algebra(2): unary operators x all canonical subsets x all partitions', main, 'un', ('S', None), ('B',), 4)
+    sh += mk('norm / normalized of single blades at a negative value (nested powers must not be denested)', main, 'un', ('S', 1), ('B',), 1, ops=['norm', 'normalized'], assign=1)
     sh += mk('Algebra(2): binary operators x subsets <=2 blades x 4 right operands x all partitions (k<=4)', main, 'bin', ('S', 2), right4, 11)
     sh += mk('string coefficients and ordered tuples (gp, sw, add, div)', main, 'bin', ('T', 2), ('list', [[2, 1], [3]]), 4, ops=['gp', 'sw', 'add', 'div'], strings=True)
     sh.append(dict(stratum='call history: 18 symbolic multivectors of one key pattern called one after the other (two orders)', cfg=main, kind='callhist'))
@@ -84,7 +88,9 @@ def run_call_history(shard):
         for coeffs in order:
             res.evals += 1
             res.nontrivial += 1
-            x = alg.multivector(keys=keys, values=list(coeffs))
+            # stored in canonical order in the first pass, in reversed (non-canonical) key order in the second
+            kk, cc = (keys, list(coeffs)) if order is fam else (tuple(reversed(keys)), list(reversed(coeffs)))
+            x = alg.multivector(keys=kk, values=cc)
             want = {k: c.subs({u1: sympy.Rational(3, 2), u2: sympy.Rational(-5, 3)}) for k, c in zip(keys, coeffs)}
             try:
                 got = dict(x(**vals).items())
@@ -155,6 +161,8 @@ def run_shard(shard):
             for op in ops:
                 if op == 'sqrt' and not (0 in ka and len(ka) <= 2):
                     continue
+                if op in ('norm', 'normalized') and (len(ka) != 1 or cfg != MAIN or 0 < sum(part) < k):
+                    continue      # sympy needs seconds per nested square root: single blades of the main algebra only
                 case = {'shard': dict(shard, left=['list', [list(ka)]], right=['list', [list(kb)]] if kind == 'bin' else ['B'], chunk=(0, 1), ops=[op])}
                 repro = head + f"# operator {op}, keys {keysets}, symbolic coefficients {sorted(syms)} -> values {[str(syms[s]) for s in sorted(syms)]}"
                 try:
